@@ -1,8 +1,85 @@
-import FalconModel.CfgEdit
+/-
+  Property C15 — CFG construction and editing keep graphs consistent and meaning intact.
+  Model: FalconModel/CfgEdit.lean (mirror of il/control_flow_graph.rs, il/block.rs, graph/mod.rs container part).
+-/
+import FalconProofs.C15.Copy
+
 namespace Falcon.C15
 open Falcon Falcon.CfgEdit
 
-theorem new_wf : WF CfgEdit.new := by
-  constructor <;> simp [CfgEdit.new, Cfg.hasBlock]
+/-- every single call, whatever it returns (ok, error with partial effects), leaves the edited graph well formed -/
+theorem step_wf (s : Graphs) (hs : ∀ g, WF (s g)) (o : EditOp) : WF (o.step s).cfg := by
+  cases o with
+  | newBlock g => exact wf_newBlock (hs g)
+  | uedge g h t => exact wf_unconditionalEdge (hs g) h t
+  | cedge g h t e => exact wf_conditionalEdge (hs g) h t e
+  | entry g i => exact wf_setEntry (hs g) i
+  | exit g i => exact wf_setExit (hs g) i
+  | merge g => exact wf_merge (hs g)
+  | append g h => exact wf_append (hs g) (hs h)
+  | insert g h => exact wf_insert (hs g) (hs h)
+  | op g b o => exact wf_blockOp (hs g) b o
+  | bappend g b h j => exact wf_blockAppendOp (hs g) b (s h) j
+  | rmins g b i => exact wf_removeInstruction (hs g) b i
+  | temp g n => exact wf_temp (hs g) n
+
+theorem run_wf (s : Graphs) (hs : ∀ g, WF (s g)) (o : EditOp) : ∀ g, WF ((run s o).1 g) := by
+  intro g
+  unfold run
+  have h := step_wf s hs o
+  dsimp only
+  split
+  · exact hs g
+  · show WF (Graphs.set s o.target (o.step s).cfg g)
+    unfold Graphs.set
+    split
+    · exact h
+    · exact hs g
+
+/-- **ops_wf** — after every finite history of construction / editing operations (any interleaving over any
+    number of graphs that are appended to and inserted into each other, failing calls included), starting from
+    `ControlFlowGraph::new()`, every graph satisfies `WF`: block indices and (head, tail) pairs are keys, every
+    edge joins existing blocks, block indices are below `next_index`, instruction indices are unique within each
+    block and below the block's counter, entry and exit name existing blocks. -/
+theorem ops_wf (ops : List EditOp) : ∀ g, WF (runAll ops g) := by
+  unfold runAll
+  suffices h : ∀ (s : Graphs), (∀ g, WF (s g)) → ∀ g, WF ((ops.foldl (fun s o => (run s o).1) s) g) from
+    h _ (fun _ => wf_new)
+  induction ops with
+  | nil => intro s hs; exact hs
+  | cons o ops ih => intro s hs; exact ih _ (run_wf s hs o)
+
+/-- the predecessor / successor queries are exactly the edge set (in the model they are derived from it; the
+    correspondence check compares falcon's own queries with these after every operation) -/
+theorem queries_agree (c : Cfg) (h t : Nat) :
+    (t ∈ c.successorIndices h ↔ ∃ e ∈ c.edges, e.head = h ∧ e.tail = t) ∧
+    (h ∈ c.predecessorIndices t ↔ ∃ e ∈ c.edges, e.head = h ∧ e.tail = t) := by
+  simp only [Cfg.successorIndices, Cfg.predecessorIndices, Cfg.edgesOut, Cfg.edgesIn, List.mem_map, List.mem_filter,
+    beq_iff_eq]
+  constructor
+  · constructor
+    · rintro ⟨e, ⟨he, rfl⟩, rfl⟩; exact ⟨e, he, rfl, rfl⟩
+    · rintro ⟨e, he, rfl, rfl⟩; exact ⟨e, ⟨he, rfl⟩, rfl⟩
+  · constructor
+    · rintro ⟨e, ⟨he, rfl⟩, rfl⟩; exact ⟨e, he, rfl, rfl⟩
+    · rintro ⟨e, he, rfl, rfl⟩; exact ⟨e, ⟨he, rfl⟩, rfl⟩
+
+/-- **block_append_indices** — `Block::append` keeps instruction indices unique (and below the counter), keeps
+    the receiving block's own instructions, and appends the other block's operations in order. -/
+theorem block_append_indices (b o : Block) (hb : BlockWF b) :
+    BlockWF (blockAppend b o) ∧ (blockAppend b o).index = b.index ∧
+      (blockAppend b o).instrs.map (·.op) = b.instrs.map (·.op) ++ o.instrs.map (·.op) := by
+  refine ⟨blockWF_appendInstrs hb _, appendInstrs_index _ _, ?_⟩
+  unfold blockAppend
+  generalize o.instrs = is
+  induction is generalizing b with
+  | nil => simp [appendInstrs]
+  | cons i is ih =>
+    rw [appendInstrs, ih _ (blockWF_pushRaw hb i)]
+    simp
+
+/-- non-vacuity: a history with a merge that merges, an append and an insert -/
+example : WF (runAll [.newBlock 0, .newBlock 0, .uedge 0 0 1, .entry 0 0, .exit 0 1, .op 0 1 .nop,
+    .merge 0, .append 1 0, .insert 2 1] 2) := ops_wf _ 2
 
 end Falcon.C15
